@@ -328,10 +328,16 @@ class Basin(abc.ABC):
                         # data), then the measurement identifier has to
                         # partially match.
                         verifier = str.startswith
-                    self._measurement_identifier_verified = verifier(
-                        self.measurement_identifier,
-                        self.get_measurement_identifier()
-                    )
+                    basin_identifier = self.get_measurement_identifier()
+                    if basin_identifier is None:
+                        # The basin cannot be attributed to any measurement,
+                        # but the referencing dataset can.
+                        self._measurement_identifier_verified = False
+                    else:
+                        self._measurement_identifier_verified = verifier(
+                            self.measurement_identifier,
+                            basin_identifier
+                        )
             check_rid = self._measurement_identifier_verified
         else:
             check_rid = True
